@@ -114,7 +114,7 @@ theorem tab_res {o : SubsetOut} {tab : List (Nat × Node)} (ht : TabOK o.descs.l
 
 /-- every value node of the shape the simulation yields is resolved within depth `2 N + 2` -/
 theorem val_res {o : SubsetOut} {tab : List (Nat × Node)} (ht : TabOK o.descs.length tab) {n : Node}
-    (h : valShape o.descs.length n = true) : Res o tab (2 * o.descs.length + 2) n := by
+    (h : valShape o.descs.length n = true) : Res o tab (2 * o.descs.length + 3) n := by
   cases n with
   | value k i own =>
     simp only [valShape, Bool.and_eq_true, decide_eq_true_eq] at h
@@ -133,6 +133,16 @@ theorem val_res {o : SubsetOut} {tab : List (Nat × Node)} (ht : TabOK o.descs.l
       intro c hc
       rw [List.mem_singleton] at hc
       rw [hc]
+      exact (Res.mk (d := 2 * o.descs.length) (by omega) (fun _ h => by cases h) (child m (by omega))).mono _ (by omega)
+    · next a m =>
+      simp only [Bool.and_eq_true, decide_eq_true_eq] at ho
+      intro c hc
+      rw [List.mem_singleton] at hc
+      rw [hc]
+      refine Res.mk (by omega) ?_ (fun c hc => (child a (by omega) c hc).mono _ (by omega))
+      intro c hc
+      rw [List.mem_singleton] at hc
+      rw [hc]
       exact Res.mk (by omega) (fun _ h => by cases h) (child m (by omega))
     · cases ho
   | noval _ => cases h
@@ -142,7 +152,7 @@ theorem val_res {o : SubsetOut} {tab : List (Nat × Node)} (ht : TabOK o.descs.l
 
 mutual
 theorem resolve_render_list {o : SubsetOut} {tab : List (Nat × Node)} (hlen : o.descs.length ≤ o.vals.length)
-    (ht : TabOK o.descs.length tab) (fuel : Nat) (hf : 2 * o.descs.length + 2 ≤ fuel) : ∀ (ns : List Node),
+    (ht : TabOK o.descs.length tab) (fuel : Nat) (hf : 2 * o.descs.length + 3 ≤ fuel) : ∀ (ns : List Node),
     treeOKList o ns = true → shapeList o.descs.length ns = true →
       ∃ res js, resolveList tab fuel ns = .ok res ∧ renderNodes o res = .ok js
   | [], _, _ => ⟨[], [], by rw [resolveList], by rw [renderNodes]⟩
@@ -154,7 +164,7 @@ theorem resolve_render_list {o : SubsetOut} {tab : List (Nat × Node)} (hlen : o
     exact ⟨n' :: res, j :: js, by rw [resolveList, e1]; simp only [e3], by rw [renderNodes, e2]; simp only [e4]⟩
 
 theorem resolve_render_1 {o : SubsetOut} {tab : List (Nat × Node)} (hlen : o.descs.length ≤ o.vals.length)
-    (ht : TabOK o.descs.length tab) (fuel : Nat) (hf : 2 * o.descs.length + 2 ≤ fuel) : ∀ (n : Node),
+    (ht : TabOK o.descs.length tab) (fuel : Nat) (hf : 2 * o.descs.length + 3 ≤ fuel) : ∀ (n : Node),
     treeOK1 o n = true → shape1 o.descs.length n = true →
       ∃ n' j, resolve1 tab fuel n = .ok n' ∧ renderNode o n' = .ok j
   | .value k i own, _, h2 => by
@@ -202,13 +212,12 @@ structure LinkedCore (o : SubsetOut) (w : Wired) : Prop where
   next : w.st.next = o.vals.length
   len : o.descs.length = o.vals.length
   good : GoodL o w.nodes
-  noA : ∀ d ∈ o.descs, d.isAssoc = false
   owners : ∀ p ∈ w.st.tab, ∃ k i own, p.2 = .value k i own ∧ p.1 < i ∧ i < w.st.next ∧
-    lookupLink o.links i = some p.1 ∧ OwnOK p.1 i own
+    lookupLink o.links i = some p.1 ∧ OwnOK p.1 i own ∧ NotA o i
   shown : ∀ q ∈ o.links, ∃ p ∈ w.st.tab, p.2.index? = some q.1
 
 theorem Linked.core {t : List Desc} {o : SubsetOut} {w : Wired} (h : Linked t o w) : LinkedCore o w :=
-  ⟨h.next, h.len, h.good, h.noA, h.owners, h.shown⟩
+  ⟨h.next, h.len, h.good, h.owners, h.shown⟩
 
 /-- attachment and rendering succeed -/
 theorem LinkedCore.tree_renders {o : SubsetOut} {w : Wired} (h : LinkedCore o w) :
@@ -216,7 +225,7 @@ theorem LinkedCore.tree_renders {o : SubsetOut} {w : Wired} (h : LinkedCore o w)
   have hN : w.st.next = o.descs.length := by rw [h.next, h.len]
   have ht : TabOK o.descs.length w.st.tab := by
     intro p hp
-    obtain ⟨k, i, own, e, h1, h2, _, h4⟩ := h.owners p hp
+    obtain ⟨k, i, own, e, h1, h2, _, h4, _⟩ := h.owners p hp
     exact ⟨k, i, own, e, h1, by rw [← hN]; exact h2, h4⟩
   unfold Wired.tree Wired.fuel renderNested
   exact resolve_render_list (by rw [h.len]; exact Nat.le_refl _) ht _ (by rw [hN]; omega) w.nodes h.good.1 h.good.2
@@ -226,11 +235,8 @@ theorem LinkedCore.sideOK {o : SubsetOut} {w : Wired} (h : LinkedCore o w) : w.s
   rw [h.good.1, h.next]
   simp only [Bool.true_and, beq_self_eq_true, Bool.and_true, List.all_eq_true]
   intro p hp
-  obtain ⟨k, i, own, e, _, hi, _, _⟩ := h.owners p hp
+  obtain ⟨k, i, own, e, _, hi, _, _, d, hd, hA⟩ := h.owners p hp
   rw [e]
-  have hlt : i < o.descs.length := by rw [h.len, ← h.next]; exact hi
-  have hd : o.descs[i]? = some o.descs[i] := List.getElem?_eq_getElem hlt
-  have hA := h.noA _ (List.getElem_mem hlt)
   simp [tabAttrOK, hd, hA]
 
 /-! ### a later subset of compressed data on the tree of subset 0 -/
@@ -291,7 +297,7 @@ theorem LinkedCore.shared {o0 o : SubsetOut} {w : Wired} (h : LinkedCore o0 w) (
     (hl : o.links = o0.links) (hlen : o.vals.length = o.descs.length)
     (hs : Spec.sameCountsList o0 o w.nodes = true) : LinkedCore o w :=
   ⟨by rw [h.next, hlen, hd, h.len], hlen.symm, ⟨treeOKList_shared hd w.nodes h.good.1 hs, by rw [hd]; exact h.good.2⟩,
-    by rw [hd]; exact h.noA, by rw [hl]; exact h.owners, by rw [hl]; exact h.shown⟩
+    by unfold NotA; rw [hl, hd]; exact h.owners, by rw [hl]; exact h.shown⟩
 
 /-! ### the counts hypothesis on the RESOLVED tree gives it on the raw tree -/
 
@@ -300,6 +306,7 @@ theorem sameCounts_ownShape {o0 o : SubsetOut} {i : Nat} {own : List Node} (h : 
   unfold ownShape at h
   split at h
   · rw [Spec.sameCountsList]
+  · simp [Spec.sameCountsList, Spec.sameCounts1]
   · simp [Spec.sameCountsList, Spec.sameCounts1]
   · cases h
 
